@@ -34,18 +34,32 @@ def run(ck, m):
     alloc = [b for b in P.user_bodies() if b.kind in ('fn', 'method')
              and any(t['f'].get('dargs', '').startswith(KM + 'insert') for _, t in b.calls())
              and any(t['f'].get('dargs', '').startswith(KM + 'len') for _, t in b.calls())]
-    if len(alloc) != 1:
-        ck.undecided('C16.c', 'allocator', 'anchor', 'expected one key-id allocator (insert + len on the key map), found %d' % len(alloc))
-        return
-    ab = alloc[0]
-    callers = P.callers().get(ab.id, [])
-
     def in_loop(body, depth=0):
         """the body is the replication loop, nested in it, or a helper whose only callers are"""
         if body.id == lb.id or body.id.startswith(lb.id + '::'):
             return True
         cs = P.callers().get(body.id, [])
         return depth < 3 and bool(cs) and all(in_loop(cb, depth + 1) for cb, _ in cs)
+    if len(alloc) > 1:
+        # more than one function hands out ids: the one the replication loop uses is judged below; any other one is a second
+        # allocator outside the flag protocol unless it invalidates the flag itself before it inserts
+        main = [b for b in alloc if P.callers().get(b.id) and all(in_loop(cb) for cb, _ in P.callers().get(b.id, []))]
+        for e in [b for b in alloc if b not in main]:
+            ins_e = [bi for bi, t in e.calls() if t['f'].get('dargs', '').startswith(KM + 'insert')]
+            inv_e = [bi for bi, t in e.calls() if callee(t).endswith('invalidate_oplog')]
+            ok_e = bool(inv_e) and all(any(e.dominates(x, i) for x in inv_e) for i in ins_e)
+            ck.ob('C16.c', short(e.id), 'second-allocator', ok_e,
+                  'a second allocator that invalidates the flag before every id it hands out' if ok_e else
+                  '%s (called from %s) hands out key ids (insert + len on the key map) outside the replication loop and without invalidating '
+                  'the on-disk flag: the ids exist only in memory while the flag stays valid, the keys file is never rewritten for them, and '
+                  'after a clean restart the records written under them decode to other keys'
+                  % (short(e.id), sorted({short(cb.id) for cb, _ in P.callers().get(e.id, [])})), '%s:%s' % (e.file, e.line))
+        alloc = main
+    if len(alloc) != 1:
+        ck.undecided('C16.c', 'allocator', 'anchor', 'expected one key-id allocator (insert + len on the key map), found %d' % len(alloc))
+        return
+    ab = alloc[0]
+    callers = P.callers().get(ab.id, [])
     ok = bool(callers) and all(in_loop(cb) for cb, _ in callers)
     ck.ob('C16.c', short(ab.id), 'single-consumer-callers', ok,
           'key ids are allocated only from the replication loop (%d call sites)' % len(callers) if ok else
@@ -87,11 +101,15 @@ def run(ck, m):
     ins = [bi for bi, t in ab.calls() if t['f'].get('dargs', '').startswith(KM + 'insert')]
     if inv_in_alloc:
         inv = inv_in_alloc
-        ok = bool(ins) and all(any(ab.dominates(i, r) or ab.postdominates(r, i) for r in inv) for i in ins)
+        # on EVERY path: the invalidation comes before the insert, or every path from the insert to the return passes it (an
+        # invalidation behind a role / mode test is skipped exactly when that test says so, and the role is not a property of the log)
+        ok = bool(ins) and all(any(ab.dominates(r, i) or ab.postdominates(r, i) for r in inv) for i in ins)
         # invalidation sits on the new-key path and before the function returns the id
         ck.ob('C16.a', short(ab.id), 'new-id-invalidates-flag', ok,
               'a new key id is always accompanied by invalidate_oplog before the id is returned' if ok else
-              'a new key id can be returned without invalidating the on-disk flag', '%s:%s' % (ab.file, ab.line))
+              'a new key id can be returned without invalidating the on-disk flag (the invalidation at %s is conditional): the key is registered '
+              'and logged while the flag stays valid, the keys file is never updated, and after a restart the log is kept although it names '
+              'an id the keys file does not know — the next new key gets the same id' % [ab.loc(r) for r in inv], '%s:%s' % (ab.file, ab.line))
     else:
         for ub in users.values():
             inv_here = [bi for bi, t in ub.calls() if callee(t).endswith('invalidate_oplog')]
